@@ -102,16 +102,16 @@ def check(ctx):
 
         def rc(c=c):
             s, ex = summarise(p, c)
-            want = {'densities_': 'densities', 'channel_weights_': 'channel_weights',
-                    'enabled_channels_': 'enabled_channels', 'map_': 'map', 'coordinates_': 'coordinates',
-                    'point_': 'point'}
+            # parameters by position (point, coordinates, channel, densities, channel_weights,
+            # enabled_channels, map): their names are free
+            want = {'densities_': 3, 'channel_weights_': 4, 'enabled_channels_': 5, 'map_': 6, 'coordinates_': 1,
+                    'point_': 0}
             bad = []
-            names = {q.name: q.id for q in c.params}
-            for m_, par in want.items():
+            for m_, pos_ in want.items():
                 r = fld(s.this, m_)
-                if not (isinstance(r, tuple) and r[0] == 'ref' and r[1][1] == names.get(par)):
-                    bad.append('%s is not bound to parameter %s' % (m_, par))
-            if fld(s.this, 'channel_') != sym('channel'):
+                if not (isinstance(r, tuple) and r[0] == 'ref' and r[1][1] == c.params[pos_].id):
+                    bad.append('%s is not bound to parameter %d (%s)' % (m_, pos_ + 1, c.params[pos_].name))
+            if fld(s.this, 'channel_') != sym(c.params[2].name):
                 bad.append('channel_ is not the channel parameter')
             if fld(s.this, 'weight_') != ZERO:
                 bad.append('the lazy weight does not start as "not computed" (0)')
